@@ -92,7 +92,8 @@ def pick_per_pattern(exports, rnd, per):
 def guards(e):
     """How many guard conditions of the rules a case exercises: somebody who WOULD earn a category but for one exclusion
     (a failed or penalised inviter of a successful invitee, a penalised invitee, a failed or penalised reporter of a
-    reported flip, an author who missed or was penalised, a penalised staker)."""
+    reported flip, an author who missed or was penalised, a penalised staker, an author one flip / a stake short of the
+    extra flip reward)."""
     ids, n = e["ids"], 0
 
     def pen(d):
@@ -112,6 +113,8 @@ def guards(e):
             n += 1
         if pen(d) and valid(d):
             n += 1
+        if valid(d) and not pen(d) and not d["missed"] and (d["good"] > 3 and d["stake"] == 0 or d["good"] == 3 and d["stake"] > 0):
+            n += 1      # would earn extra flip rewards but for the stake / for one more flip
     return n
 
 
@@ -124,8 +127,9 @@ def pick_guarded(exports, rnd, limit):
     for k in sorted(by):
         lst = by[k]
         rnd.shuffle(lst)
-        g = [e for e in lst if guards(e) > 0]
-        (hot if g else cold).append((g or lst)[0])
+        top = max(guards(e) for e in lst)
+        g = [e for e in lst if guards(e) == top]
+        (hot if top > 0 else cold).append(g[0])
     rnd.shuffle(hot)
     rnd.shuffle(cold)
     nh = min(len(hot), (limit * 3) // 4)
@@ -342,10 +346,11 @@ def run(ctx, quick):
     pool.shutdown()
     states = sum(r.distinct for r in res.values())
     trans = sum(r.generated for r in res.values())
-    single, npat1 = pick_per_pattern(uniq(res["single"].exports), rnd, 1 if quick else 3)
     if quick:
-        rnd.shuffle(single)
-        single = single[:90]
+        single, npat1 = pick_guarded(uniq(res["single"].exports), rnd, 90)
+    else:
+        single, npat1 = pick_per_pattern(uniq(res["single"].exports), rnd, 3)
+        single += [e for e in pick_guarded(uniq(res["single"].exports), rnd, 1000)[0] if e not in single]
     pair, npat2 = pick_guarded(uniq(res["pairq"].exports), rnd, 45 if quick else 350)
     if not quick:
         pair2, npat2b = pick_guarded(uniq(res["pair"].exports), rnd, 650)
@@ -476,7 +481,7 @@ def selftest(ctx, trace):
     bad = ctx.path("selftest", "rew_bad.ndjson")
     vlib.write_ndjson(bad, bad_rows)
     ok2, broken2, _, rej2 = validate(ctx, bad, sub="tv_rew_st1")
-    extra = set(c for _, c in broken2) - base
+    extra = set(c for lc in set(broken2) - set(broken) for c in [lc[1]])     # broken anew, or earlier than in the recording
     if rej2 is not None or not any(c.startswith(("CategoryShareGross", "ConservationGross", "NoUnexplainedIncrease")) for c in extra):
         raise vlib.CheckError("binding self-test failed: a trace with an inflated credit was accepted by Trace_Rewards (%s)" % sorted(extra))
     cut = [r for r in keep]
